@@ -381,10 +381,12 @@ def markdown_leaf():
 def pretty_leaf(allow_ignore=True):
     lf = st.one_of(st.integers(-5, 10**9), st.sampled_from(["", "a", "漢字" * 4, "x" * 40, "q'\"\n"]), st.none(), st.booleans(), st.floats(allow_nan=False, allow_infinity=False, width=32))
     val = st.recursive(lf, lambda k: st.one_of(st.lists(k, max_size=4), st.lists(k, max_size=3).map(tuple), st.dictionaries(st.sampled_from(["k", "key2", 3]), k, max_size=3)), max_leaves=12)
-    return st.builds(lambda v, ind, ig, ml, ms, ea, mg, il, ov, nw: {"k": "pretty", "v": repr(v), "indent_size": ind, "indent_guides": ig, "max_length": ml, "max_string": ms, "expand_all": ea, "margin": mg,
-                                                             "insert_line": il, "overflow": ov, "no_wrap": nw},
+    # values that are instances of tuple subclasses (named tuples, sys.version_info, time.struct_time) somewhere inside
+    special = st.sampled_from([None, None, None, "namedtuple", "version_info", "struct_time", "nested-namedtuple"])
+    return st.builds(lambda v, ind, ig, ml, ms, ea, mg, il, ov, nw, sp: dict({"k": "pretty", "v": repr(v), "indent_size": ind, "indent_guides": ig, "max_length": ml, "max_string": ms, "expand_all": ea, "margin": mg,
+                                                             "insert_line": il, "overflow": ov, "no_wrap": nw}, **({"special": sp} if sp else {})),
                      val, st.integers(1, 8), st.booleans(), st.one_of(st.none(), st.integers(0, 5)), st.one_of(st.none(), st.integers(0, 10)), st.booleans(), st.integers(0, 10), st.booleans(),
-                     st.sampled_from([None, "crop", "fold", "ellipsis"] + (["ignore"] if allow_ignore else [])), st.sampled_from([None, False, True]))
+                     st.sampled_from([None, "crop", "fold", "ellipsis"] + (["ignore"] if allow_ignore else [])), st.sampled_from([None, False, True]), special)
 
 
 def other_leaves(which=None):
@@ -408,7 +410,16 @@ def _build_markdown(n):
 def _build_pretty(n):
     from rich.pretty import Pretty
 
-    return Pretty(eval(n["v"], {"__builtins__": {}}), indent_size=n["indent_size"], indent_guides=n["indent_guides"], max_length=n["max_length"], max_string=n["max_string"], expand_all=n["expand_all"],
+    value = eval(n["v"], {"__builtins__": {}})
+    if n.get("special"):
+        import collections
+        import sys as _sys
+        import time as _time
+
+        P = collections.namedtuple("P", "x y")
+        extra = {"namedtuple": P(1, "two"), "version_info": _sys.version_info, "struct_time": _time.gmtime(0), "nested-namedtuple": [P(P(1, 2), [3])]}[n["special"]]
+        value = [value, extra, {"k": extra}]
+    return Pretty(value, indent_size=n["indent_size"], indent_guides=n["indent_guides"], max_length=n["max_length"], max_string=n["max_string"], expand_all=n["expand_all"],
                   margin=n["margin"], insert_line=n["insert_line"], overflow=n["overflow"], no_wrap=n["no_wrap"])
 
 
